@@ -33,6 +33,7 @@ CATALOGUE = {
   (S, None, 'core/_files.py', "slice(si, si + 1 or None)", "slice(si, (si + 1) or None)"),
  ],
  'C04': [
+  (F, 'R-STDIMPORT', 'geoschemfiles/_gcnc.py', "from collections.abc import Iterable", "from collections import Iterable"),
   (F, 'R-ORDER', 'core/_files.py', "            fs = [self] + list(other)", "            fs = [self] + sorted(other)"),
   (F, 'R-ORDER', 'core/_files.py', "            fs = [self] + list(other)", "            fs = list(other) + [self]"),
   (F, 'R-MACONCAT', 'core/_files.py', "outvals = np.ma.concatenate(", "outvals = np.concatenate("),
@@ -74,6 +75,8 @@ CATALOGUE = {
   (F, 'R-TFLAGPAIR', 'camxfiles/lateral_boundary/Memmap.py', "            self.__memmap__['DATE']['ETIME'], self.NVARS)", "            self.__memmap__['DATE']['BTIME'], self.NVARS)"),
   (F, 'R-BEPAIR', 'camxfiles/lateral_boundary/Write.py', "time_hdr['iedate'] += (time_hdr['etime'] // 24).astype('i')", "time_hdr['iedate'] += (time_hdr['btime'] // 24).astype('i')"),
   (F, 'R-API', 'camxfiles/one3d/Write.py', "v2d.tobytes() + buf)", "v2d.tostring() + buf)"),
+  (F, 'R-YEAREND', 'camxfiles/uamiv/Write.py', "        date_e = rollyear(date_e)\n", ""),
+  (F, 'R-YEAREND', 'camxfiles/timetuple.py', "    ndays = 365 + leap", "    ndays = 366"),
   (F, 'R-VARORDER', 'camxfiles/cloud_rain/Write.py', "['CLOUD', 'PRECIP', 'RAIN', 'SNOW',\n                             'GRAUPEL', 'COD']", "['CLOUD', 'RAIN', 'SNOW',\n                             'GRAUPEL', 'COD', 'PRECIP']"),
   (S, None, 'camxfiles/uamiv/Write.py', "grid_hdr['rdum5'] = 0.", "grid_hdr['rdum5'] = 0.0"),
  ],
@@ -106,6 +109,7 @@ CATALOGUE = {
   (S, None, 'cmaqfiles/_ioapi.py', "if lidx[-1] < (nlvls - 1):", "if lidx[-1] <= (nlvls - 2):"),
  ],
  'C12': [
+  (F, 'R-REFTIME', 'core/_files.py', "yearlike, refdate.month, refdate.day, refdate.hour,\n                        refdate.minute, refdate.second, tzinfo=utc)", "yearlike, refdate.month, refdate.day, tzinfo=utc)"),
   (F, 'R-UNITTABLE', 'core/_files.py', "'seconds': yeardays * 24 * 3600}", "'seconds': yeardays * 24 * 60}"),
   (F, 'R-CALTABLE', 'core/_files.py', "'366_day': 1972}", "'366_day': 1970}"),
   (F, 'R-TIMEOFDAY', 'core/_files.py', "cday.replace(year=refyear + yearinc)", "datetime(refyear + yearinc, cday.month, cday.day, tzinfo=utc)"),
@@ -490,8 +494,8 @@ CATALOGUE['C20'] += [
 
 
 CATALOGUE['C12'] += [
-  (F, 'R-REFSHIFT', _F, "                            refcdate - crefdate).total_seconds() / yearseconds", "                            crefdate - refcdate).total_seconds() / yearseconds"),
-  (S, None, _F, "                        addyears = (\n                            refcdate - crefdate).total_seconds() / yearseconds", "                        refoffset = refcdate - crefdate\n                        addyears = refoffset.total_seconds() / yearseconds"),
+  (F, 'R-REFSHIFT', _F, "                        refcdate - crefdate).total_seconds() / yearseconds", "                        crefdate - refcdate).total_seconds() / yearseconds"),
+  (S, None, _F, "                    addyears = (\n                        refcdate - crefdate).total_seconds() / yearseconds", "                    refoffset = refcdate - crefdate\n                    addyears = refoffset.total_seconds() / yearseconds"),
 ]
 
 CATALOGUE['C14'] += [
@@ -561,24 +565,26 @@ CATALOGUE['C08'] += [
 # ---- variants taken from committed seeded changes (one file, any number of hunks): the rule named here must fire on the patched text.
 # A seed whose hunks no longer match the tree is skipped (reported as such), never a failure.
 SEED_VARIANTS = {
- 'C01': [('C01-x2', 'R-EVALDIMS'), ('C01-x3', 'R-NEWLEN')],
- 'C02': [('C02-x3', 'R-FUZZYDIM'), ('C02-x2', 'R-ZIPAXIS'), ('C02-x1', 'R-FILLLOOK')],
- 'C03': [('C03-x2', 'R-FUZZYDIM'), ('C03-x3', 'R-CONVCALL')],
- 'C04': [('C04-x1', 'R-MACONCAT'), ('C04-x3', 'R-UNLIM')],
- 'C05': [('C05-x3', 'R-QMUT')],
- 'C06': [('C06-x1', 'R-PASSONLY'), ('C06-x3', 'R-MASKDEFPARSE')],
- 'C07': [('C07-x3', 'R-FILLZERO'), ('C07-x1', 'R-NCATTRAPI')],
- 'C08': [('C09-x2', 'R-CARRY'), ('C08-x3', 'R-VARORDER'), ('C09-m3', 'R-ONESTEP')],
- 'C10': [('C10-x1', 'R-STARTSYNC'), ('C10-x2', 'R-DIMRESET')],
+ 'C01': [('C01-x2', 'R-EVALDIMS'), ('C01-x3', 'R-NEWLEN'), ('C01-y1', 'R-STALEVAR'), ('C01-y3', 'R-GUARDOBJ')],
+ 'C02': [('C02-x3', 'R-FUZZYDIM'), ('C02-x2', 'R-ZIPAXIS'), ('C02-x1', 'R-FILLLOOK'), ('C02-y2', 'R-DTYPEFULL')],
+ 'C03': [('C03-x2', 'R-FUZZYDIM'), ('C03-x3', 'R-CONVCALL'), ('C03-y2', 'R-EDGEORDER')],
+ 'C04': [('C04-x1', 'R-MACONCAT'), ('C04-x3', 'R-UNLIM'), ('C04-y1', 'R-STACKDEFAULT')],
+ 'C05': [('C05-x3', 'R-QMUT'), ('C05-y2', 'R-CLOSELOCAL')],
+ 'C06': [('C06-x1', 'R-PASSONLY'), ('C06-x3', 'R-MASKDEFPARSE'), ('C06-y2', 'R-MASKTABLE'), ('C06-y3', 'R-COORDDECL')],
+ 'C07': [('C07-x3', 'R-FILLZERO'), ('C07-x1', 'R-NCATTRAPI'), ('C07-y2', 'R-ATTRSKIP'), ('C07-y3', 'R-DATAWRITE')],
+ 'C08': [('C09-x2', 'R-CARRY'), ('C08-x3', 'R-VARORDER'), ('C09-m3', 'R-ONESTEP'), ('C08-y1', 'R-STYLEFLAG'), ('C08-y2', 'R-SCALARVIEW'), ('C08-y3', 'R-SIZEDTEXT')],
+ 'C09': [('C09-y3', 'R-FRAME')],
+ 'C10': [('C10-x1', 'R-STARTSYNC'), ('C10-x2', 'R-DIMRESET'), ('C10-y2', 'R-VARLISTWIDTH'), ('C10-y3', 'R-TFLAGUNLISTED')],
  'C11': [('C11-x1', 'R-TIMESRC'), ('C12-x3', 'R-STEPSET')],
- 'C12': [('C12-x1', 'R-CALSRC')],
- 'C13': [('C13-x1', 'R-TIMEORIGIN'), ('C13-x2', 'R-ONESHOT'), ('C13-x3', 'R-STEPTILE')],
- 'C15': [('C15-x2', 'R-NOSTATE'), ('C15-x3', 'R-ISMINEPURE')],
- 'C16': [('C16-x1', 'R-BOUNDSBREAK'), ('C16-x2', 'R-QUERYDTYPE'), ('C16-x3', 'R-EDGEPAIR')],
- 'C17': [('C17-x1', 'R-NORMSAME'), ('C17-x2', 'R-SIGMADEF'), ('C17-x3', 'R-COORDSEL')],
- 'C18': [('C18-x2', 'R-PIECEORDER'), ('C18-x3', 'R-REGALL')],
- 'C19': [('C19-x2', 'R-MISSPARSE'), ('C19-x3', 'R-LINECOUNT')],
- 'C20': [('C20-x3', 'R-ARLWIDTH')],
+ 'C12': [('C12-x1', 'R-CALSRC'), ('C12-y1', 'R-TIMEPREC'), ('C12-y2', 'R-TIMESTORE'), ('C11-y1', 'R-HMSALL')],
+ 'C13': [('C13-x1', 'R-TIMEORIGIN'), ('C13-x2', 'R-ONESHOT'), ('C13-x3', 'R-STEPTILE'), ('C13-y1', 'R-STEPID'), ('C13-y2', 'R-STEPCOUNT')],
+ 'C14': [('C14-y1', 'R-FIRSTSTEP'), ('C14-y2', 'R-STRIDEFLAGS')],
+ 'C15': [('C15-x2', 'R-NOSTATE'), ('C15-x3', 'R-ISMINEPURE'), ('C15-y2', 'R-ONEOWNER')],
+ 'C16': [('C16-x1', 'R-BOUNDSBREAK'), ('C16-x2', 'R-QUERYDTYPE'), ('C16-x3', 'R-EDGEPAIR'), ('C16-y2', 'R-EXACT'), ('C16-y3', 'R-RANGECHECK'), ('C12-y3', 'R-CALSRC')],
+ 'C17': [('C17-x1', 'R-NORMSAME'), ('C17-x2', 'R-SIGMADEF'), ('C17-x3', 'R-COORDSEL'), ('C17-y2', 'R-ATTRALIAS'), ('C17-y3', 'R-NOSHORTCUT')],
+ 'C18': [('C18-x2', 'R-PIECEORDER'), ('C18-x3', 'R-REGALL'), ('C18-y1', 'R-REWINDCOPY'), ('C18-y2', 'R-WINDOW3'), ('C18-y3', 'R-COLTILE')],
+ 'C19': [('C19-x2', 'R-MISSPARSE'), ('C19-x3', 'R-LINECOUNT'), ('C19-y1', 'R-ENCODING'), ('C19-y2', 'R-INDEPSRC'), ('C19-y3', 'R-FALSYDEFAULT')],
+ 'C20': [('C20-x3', 'R-ARLWIDTH'), ('C20-y2', 'R-STAMPFMT'), ('C20-y3', 'R-KSUM')],
 }
 
 
